@@ -823,10 +823,11 @@ impl Runner {
     fn shrink_case<C: CaseIo>(&self, mut c: C, mut f: Fail, judge: &(dyn Fn(&C, &mut Stats) -> Verdict + Sync)) -> (C, Fail) {
         let mut st = Stats { frozen: true, ..Stats::default() };
         let mut budget = 20_000usize;
+        let t0 = Instant::now();
         loop {
             let mut progressed = false;
             for cand in c.simpler() {
-                if budget == 0 {
+                if budget == 0 || t0.elapsed().as_secs() >= 20 {
                     return (c, f);
                 }
                 budget -= 1;
@@ -1124,6 +1125,8 @@ impl Runner {
                         failure_persistence: None,
                         rng_seed: RngSeed::Fixed(mix(seed, prop, name, shard as u64)),
                         max_shrink_iters: 60_000,
+                        // shrinking is bounded in time as well: a less minimal case is still a reproducible one
+                        max_shrink_time: 20_000,
                         max_local_rejects: 1,
                         max_global_rejects: 1,
                         verbose: 0,
